@@ -167,6 +167,10 @@ func handle(h Hooks, t e1.Task) (*e1.Result, map[uint64]struct{}) {
 		case "existing":
 			wantDir = "already/there"
 			_ = os.MkdirAll(filepath.Join(dir, wantDir), 0o755)
+			// samples of an earlier, longer run are still there: they must be replaced
+			for i := 0; i < p.S; i++ {
+				_ = os.WriteFile(filepath.Join(dir, wantDir, fmt.Sprintf("random%d.bin", i)), bytes.Repeat([]byte{0xEE}, 2*p.N/8+5), 0o600)
+			}
 			args = append(args, "-o", wantDir)
 		default:
 			wantDir = p.Output
@@ -323,6 +327,13 @@ func Run(ctx *common.Ctx) int {
 			default:
 				wantDir = c.out
 				args = append(args, "-o", c.out)
+			}
+			if ci%2 == 1 {
+				// regenerate over the larger samples of an earlier run
+				_ = os.MkdirAll(filepath.Join(dir, wantDir), 0o755)
+				for i := 0; i < c.s && i < 3; i++ {
+					_ = os.WriteFile(filepath.Join(dir, wantDir, fmt.Sprintf("random%d.bin", i)), bytes.Repeat([]byte{0xEE}, c.n/8+777), 0o600)
+				}
 			}
 			cmd := exec.Command(gen, args...)
 			cmd.Dir = dir
